@@ -155,6 +155,9 @@ class BytecodeCache:
 
     def get_cache_key(self, name: str, filename: str | None = None) -> str:
         """Returns the unique hash key for this template name."""
+        # Escape the separator in the name so that different pairs of
+        # name and filename are never hashed as the same text.
+        name = name.replace("\\", "\\\\").replace("|", "\\|")
         # surrogatepass: names and paths decoded from undecodable bytes
         # (os.fsdecode) contain lone surrogates
         hash = sha1(name.encode("utf-8", "surrogatepass"))
